@@ -1742,7 +1742,13 @@ func (e *Env) typeAssert(st *State, fr *Frame, x *ssa.TypeAssert) Val {
 			s := e.sortOfT(at)
 			inner := e.wrapTerm(p.Elem(), tApp("val_"+s, ub))
 			c := e.newCell(st, inner)
-			val = Val{K: kPtr, Typ: at, Ptr: &Pointer{Cell: c, RO: true}, Nil: tEq(ub, "none_"+s)}
+			nilc := tEq(ub, "none_"+s)
+			if strings.Contains(it, "spec_unmarshalIface") {
+				// a message unpacked from a protobuf Any is a non-nil pointer to a fresh message
+				e.trusted["protobuf Any codec: an unpacked message is a non-nil pointer"]++
+				st.assume(tImplies(ok, tNot(nilc)))
+			}
+			val = Val{K: kPtr, Typ: at, Ptr: &Pointer{Cell: c, RO: true}, Nil: nilc}
 		} else {
 			val = e.wrapTerm(at, ub)
 		}
